@@ -214,7 +214,12 @@ class TagStream(Stream):
                 a = {k: sorted(set(v)) for k, v in a.items()}
             else:
                 a = "EXC:" + a
-            return {"tokens": mobs["tokens"], "parse": mobs["parse"], "audit": a}
+            out = {"tokens": mobs["tokens"], "parse": mobs["parse"], "audit": a}
+            if mobs.get("noskip") != mobs["parse"]:
+                # the model's lexer output has tag tokens between a comment/doc TAG token and its end tag:
+                # the restricted grammar's third switch would then matter (never happens for real lexer output)
+                out["comment_or_doc_content_in_lexer_output"] = True
+            return out
         return mobs
 
     def oracle(self, case, obs):
@@ -300,7 +305,7 @@ class GrammarStream(TagStream):
     def canon_model(self, case, mobs):
         m = super().canon_model(case, mobs)
         if isinstance(m, dict) and "parse" in m:
-            return {"tokens": m["tokens"], "parse": m["parse"]}
+            m.pop("audit", None)
         return m
 
     def cases(self, ctx):
